@@ -242,3 +242,52 @@ Proof.
   - intros [= <-]. split; [|reflexivity]. intros _. left. intros p Hp.
     assert (false = true) by (apply (nonempty_sys_exact _ _ _ NE); now exists p). discriminate.
 Qed.
+
+(* frequency (on polyhedra): the expression has a constant value on a non-empty set.
+   Some (Some v): non-empty and constantly v;  Some None: empty, or not constant *)
+Definition q_constant (n : nat) (e : lin) (s : sys) : option (option Q) :=
+  match sup_expr n e s, inf_expr n e s with
+  | Some (SupVal m _), Some (SupVal m' _) => Some (if Qeq_bool m m' then Some m else None)
+  | Some _, Some _ => Some None
+  | _, _ => None
+  end.
+
+Definition constant_on (s : sys) (e : lin) (v : Q) : Prop :=
+  (exists p, sat_sys s p) /\ forall p, sat_sys s p -> leval e p == v.
+
+Theorem q_constant_exact n e s r :
+  q_constant n e s = Some r ->
+  match r with
+  | Some v => constant_on s e v
+  | None => forall v, ~ constant_on s e v
+  end.
+Proof.
+  unfold q_constant.
+  destruct (sup_expr n e s) as [rs|] eqn:ES; [|discriminate].
+  destruct (inf_expr n e s) as [ri|] eqn:EI; [|destruct rs; discriminate].
+  apply sup_expr_exact in ES. apply inf_expr_exact in EI.
+  destruct rs as [| |m att]; cbn [sup_spec] in ES.
+  - intros [= <-] v [[p Hp] _]. exact (ES p Hp).
+  - intros [= <-] v [[p Hp] Hc]. destruct ES as [_ ES]. destruct (ES v) as [q [Hq Hlt]].
+    specialize (Hc q Hq). lra.
+  - destruct ri as [| |m' att']; cbn [inf_spec] in EI.
+    + intros [= <-] v [[p Hp] _]. exact (EI p Hp).
+    + intros [= <-] v [[p Hp] Hc]. destruct EI as [_ EI]. destruct (EI v) as [q [Hq Hlt]].
+      specialize (Hc q Hq). lra.
+    + destruct ES as [NE [SU [SA SN]]]. destruct EI as [_ [IL [IA IN]]].
+      destruct (Qeq_bool m m') eqn:Q; intros [= <-].
+      * apply Qeq_bool_eq in Q. split; [exact NE|]. intros p Hp.
+        specialize (SU p Hp). specialize (IL p Hp). lra.
+      * intros v [[p0 Hp0] Hc].
+        assert (Em : m == v).
+        { destruct att.
+          - destruct (SA eq_refl) as [q [Hq Eq]]. rewrite <- Eq. now apply Hc.
+          - destruct (SN eq_refl) as [S1 S2]. pose proof (S1 p0 Hp0) as L. rewrite (Hc p0 Hp0) in L.
+            destruct (S2 (m - v)) as [q [Hq Hl]]; [lra|]. rewrite (Hc q Hq) in Hl. lra. }
+        assert (Em' : m' == v).
+        { destruct att'.
+          - destruct (IA eq_refl) as [q [Hq Eq]]. rewrite <- Eq. now apply Hc.
+          - destruct (IN eq_refl) as [S1 S2]. pose proof (S1 p0 Hp0) as L. rewrite (Hc p0 Hp0) in L.
+            destruct (S2 (v - m')) as [q [Hq Hl]]; [lra|]. rewrite (Hc q Hq) in Hl. lra. }
+        assert (X : Qeq_bool m m' = true) by (apply Qeq_eq_bool; lra). congruence.
+Qed.
